@@ -25,8 +25,8 @@ def setup():
     import compileall
     compileall.compile_dir(os.path.join(core.VERIF, "mbt"), quiet=1, legacy=False)
     core.import_cryocat()
-    print("setup ok" if not bad else "setup: %d spec(s) do not parse" % bad)
-    return 0 if not bad else 2
+    print("setup ok" if not bad else "setup: WARNING %d spec(s) do not parse (the checks using them will exit 2)" % bad)
+    return 0
 
 
 def main(argv=None):
